@@ -22,6 +22,6 @@ Extraction "../runner/model.ml"
   to_slice_cobs to_vec_cobs to_allocvec_cobs
   to_slice_crc to_vec_crc to_allocvec_crc
   to_slice_crc_cobs to_vec_crc_cobs to_allocvec_crc_cobs to_recorder
-  take_from_bytes_ptr from_io from_io_c take_from_bytes_crc from_bytes_cobs take_from_bytes_cobs
+  take_from_bytes_ptr from_io from_io_c to_io_c take_from_bytes_crc from_bytes_cobs take_from_bytes_cobs
   acc_new feed drive_chunk
   B O conv schema_de schema_ok schema_wf depth key_const key_owned spec_key stream pseudocode pseudocode_nested used_types max_size mhas conforms schema_skip erase dyn_ser from_slice_dyn json_of unamb in_scope small_seqs json_wf reenc_scope schema_of emit_ok sty_ok.
